@@ -34,7 +34,9 @@ CONFIG = dict(
             "C17_delay_monotone_bounded", "C17_delay_no_overflow", "C17_block_iff_window", "C17_constants",
             "C17_spec_refused_iff", "C17_refused_records_nothing", "C17_spec_delay", "C17_independent",
             "C17_key_v6", "C17_key_raw", "C17_key_kinds", "C17_forgets", "C17_old_irrelevant",
-            "C17_concurrent_lost_update"]],
+            "C17_atomicity_facts", "C17_concurrent_failures_all_recorded", "C17_concurrent_equals_sequential",
+            "C17_check_is_read_then_writeBack", "C17_stale_writeback_harmless",
+            "C17_concurrent_checks_harmless", "C17_concurrent_lost_update"]],
         generated=["Throttle"],
         harness=dict(pkg="signaling", test="TestVerifC17"),
         stats=c17_stats,
